@@ -670,9 +670,9 @@ class StmtMixin:
         """`with f(args) [as name]:` where f is a repository generator function decorated with @contextmanager whose
         body has exactly one `yield`, as a top-level expression statement (not inside try/with/loops).  contextlib
         semantics for that shape: run the statements before the yield (the yielded value is bound to `name`), run the
-        with-body; on NORMAL completion of the body run the statements after the yield; if the body raises, returns,
-        breaks or continues, the generator is abandoned at the yield (exception thrown in / closed) and, there being no
-        try around it, none of the remaining statements run and the exit propagates unchanged."""
+        with-body; on completion of the body WITHOUT an exception (falling off the end, return, break, continue) run the
+        statements after the yield; if the body raises, the exception is thrown into the generator at the yield and,
+        there being no try around it, none of the remaining statements run and the exception propagates unchanged."""
         if len(st.items) != 1:
             raise Unsupported("with statement (several items)")
         item = st.items[0]
@@ -704,7 +704,15 @@ class StmtMixin:
             yv = fn.body[yi].value.value
             if item.optional_vars is not None:
                 self.assign(item.optional_vars, self.eval(yv, genv) if yv is not None else NONE, env)
-            self.exec_block(st.body, env)  # any PyRaise / PyReturn / PyBreak / PyContinue / PathEnd propagates: generator abandoned
+            try:
+                self.exec_block(st.body, env)  # PyRaise / PathEnd propagate: generator abandoned at the yield
+            except (PyReturn, PyBreak, PyContinue) as ctl:
+                # C17 fix: `return` / `break` / `continue` inside the with-body leave the block WITHOUT an exception, so
+                # __exit__(None, None, None) resumes the generator: the statements after the yield DO run (e.g. the
+                # end-of-block check of tls.pull_block after `return buf.pull_bytes(length)`); the return value has
+                # already been evaluated.  An exception raised by them replaces the pending control transfer.
+                self.exec_block(fn.body[yi + 1:], genv)
+                raise ctl
             self.exec_block(fn.body[yi + 1:], genv)
         finally:
             self.depth -= 1
